@@ -229,6 +229,7 @@ func TestC20Logs(t *testing.T) {
 	dpool := pool(t)
 	errBoom := errors.New("injected write error")
 	evid.Check(t, rec, evid.N(4000, 12000), func(t *rapid.T) {
+		readBufSize = 512
 		var di *dialectInfo
 		var drw *dialect.ReadWriter
 		if rapid.Bool().Draw(t, "dialect") {
@@ -437,6 +438,7 @@ func TestC05TlogTotality(t *testing.T) {
 	rec := evid.New(t, "C05", "tlog.Reader over log-shaped streams with damage (random byte substitutions, deletions, junk): no panic, terminates within n/9+2 calls; non-trivial = a damaged stream; distinct by hash of the stream")
 	dpool := pool(t)
 	evid.Check(t, rec, evid.N(10000, 60000), func(t *rapid.T) {
+		readBufSize = 512
 		var di *dialectInfo
 		var drw *dialect.ReadWriter
 		if rapid.Bool().Draw(t, "dialect") {
